@@ -6,7 +6,8 @@
    real Module::parse / Module::encode were observed to do + the decoded form of input and output:
      items  : per item kind (type, import, func, table, memory, global, export, start, elem, data, tag) the hashes of
               the printed text of every item, in order (custom sections are stripped before printing);
-     names  : every entry of the twelve name maps as (kind, index, sub-index, name hash), sorted;
+     names  : per name-map kind (module, function, local, label, type, table, memory, global, elem, data, field, tag;
+              a 13th list collects undecodable entries) the tokens hash(index, sub-index, name) of its entries, sorted;
      customs: the non-name custom sections in order as (name hash, data hash);
      conv   : the value types of the input that pass through wirm's DataType (type section, locals), each with what
               the real conversions DataType::from ; wasm_encoder::ValType::from made of it.
@@ -32,8 +33,8 @@ Record rcase := mkRCase {
   rc_out_valid : bool;
   rc_items_in : list (list N);
   rc_items_out : list (list N);
-  rc_names_in : list (N * N * N * N);
-  rc_names_out : list (N * N * N * N);
+  rc_names_in : list (list N);
+  rc_names_out : list (list N);
   rc_customs_in : list (N * N);
   rc_customs_out : list (N * N);
   rc_conv : list (valtype * option valtype) }.
@@ -45,11 +46,9 @@ Fixpoint list_eqb {A} (eqb : A -> A -> bool) (a b : list A) : bool :=
   | _, _ => false
   end.
 Definition pair_eqb (a b : N * N) : bool := (fst a =? fst b) && (snd a =? snd b).
-Definition quad_eqb (a b : N * N * N * N) : bool :=
-  let '(a1, a2, a3, a4) := a in let '(b1, b2, b3, b4) := b in (a1 =? b1) && (a2 =? b2) && (a3 =? b3) && (a4 =? b4).
 
 Definition items_equal (c : rcase) : bool := list_eqb (list_eqb N.eqb) (rc_items_in c) (rc_items_out c).
-Definition names_equal (c : rcase) : bool := list_eqb quad_eqb (rc_names_in c) (rc_names_out c).
+Definition names_equal (c : rcase) : bool := list_eqb (list_eqb N.eqb) (rc_names_in c) (rc_names_out c).
 Definition customs_equal (c : rcase) : bool := list_eqb pair_eqb (rc_customs_in c) (rc_customs_out c).
 Definition content_equal (c : rcase) : bool := items_equal c && names_equal c && customs_equal c.
 
